@@ -285,38 +285,6 @@ func (k *checker) bad(kind, format string, a ...any) {
 	}
 }
 
-// knownColonKey recognises the open finding "legacy scheme: an attribute key
-// containing ':' is escaped with the METRIC name rule, which keeps the colon,
-// so the label name is illegal and every series of the instrument is dropped
-// (reported through otel.Handle)": exactly the missing family of an
-// instrument that has such a key, and the handled error that names the label.
-func knownColonKey(c Case, v vk.Violation) bool {
-	if !c.Legacy {
-		return false
-	}
-	switch v.Kind {
-	case "family_missing":
-		i, ok := v.Observed.(int)
-		if !ok || i < 0 || i >= len(c.Insts) {
-			return false
-		}
-		for _, key := range c.Insts[i].Keys {
-			if strings.Contains(key, ":") {
-				return true
-			}
-		}
-	case "error_handled_during_scrape":
-		for i := range c.Insts {
-			for _, key := range c.Insts[i].Keys {
-				if strings.Contains(key, ":") && strings.Contains(v.Msg, fmt.Sprintf("first: %q is not a valid label name", key)) {
-					return true
-				}
-			}
-		}
-	}
-	return false
-}
-
 func labelMap(m *dto.Metric) map[string]string {
 	out := map[string]string{}
 	for _, lp := range m.GetLabel() {
@@ -781,6 +749,7 @@ func classify(c *Case, p *plan, info *vk.Info) {
 			san[s] = true
 		}
 		info.ClassIf(len(in.Keys) == 0, "instrument_without_attributes")
+		info.ClassIf(c.Legacy && strings.Contains(strings.Join(in.Keys, ","), ":"), "legacy_key_with_colon(open finding)")
 	}
 	info.ClassIf(collide && c.Legacy, "keys_collide_after_sanitisation(legacy)")
 	info.ClassIf(collide && !c.Legacy, "keys_would_collide_but_utf8")
